@@ -7,9 +7,9 @@ Parent3 == [b \in B3 |-> IF b = 2 THEN 1 ELSE IF b = 3 THEN 1 ELSE 0]
 U3 == 1..3
 Scope3 == [u \in U3 |-> IF u = 1 THEN 2 ELSE IF u = 2 THEN 3 ELSE 1]
 Value3 == [b \in B3 |-> 10 * b]
-\* lambdas: one without parameters, one with one parameter, one with three (the third one's inferred
+\* lambdas: one without parameters, one with two parameters, one with three (the third one's inferred
 \* type cannot be written in the module: only single-parameter instances exist for it)
-Lam3 == {"f0", "f1", "f3"}
-Arity3 == [x \in Lam3 |-> IF x = "f0" THEN 0 ELSE IF x = "f1" THEN 1 ELSE 3]
-PrintableParam3 == [x \in Lam3 |-> IF x = "f3" THEN {1, 2} ELSE {1}]
+Lam3 == {"f0", "f2", "f3"}
+Arity3 == [x \in Lam3 |-> IF x = "f0" THEN 0 ELSE IF x = "f2" THEN 2 ELSE 3]
+PrintableParam3 == [x \in Lam3 |-> {1, 2}]
 =============================================================================
